@@ -450,9 +450,49 @@ def r10(ctx, facts):
         raise AnchorLost("apply_metadata_update: no reply on the refresh response channels found")
 
 
+def r11(ctx, facts):
+    """the single pending-request slot of the metadata worker: a refresh request is taken from the channel only when a fetch can be started for it"""
+    r = ctx.rule("R11", "the metadata worker receives a refresh request only where it is not already busy with a full fetch (the select! branch keeps its precondition): the one pending-request slot is never overwritten", floor=1)
+    from ..util import field_slice
+    b = facts.one(r"^scylla::cluster::metadata::worker::MetadataWorker::work_on_cc::\{closure#0\}$")
+    dj = dj_of(b, facts)
+    recvs = [c for c in b.calls_to("mpsc::bounded::Receiver::<T>::recv") if "refresh_channel" in str(c.args) or any(
+        isinstance(e, list) and e[0] == "f" and e[2] == "refresh_channel" for l, _ in field_slice(b, c.args[0])[0] for d in b.defs.get(l, []) if d[0] == "stmt" for pl in _places19(d[3]) for e in pl[1])]
+    if len(recvs) != 1:
+        raise AnchorLost("work_on_cc: expected one refresh_channel.recv(), found %d" % len(recvs))
+    d = recvs[0].dest[0]
+    k = None
+    for bb in sorted(b.live_blocks):
+        for st in b.stmts(bb):
+            if st[0] == "A" and st[2][0] == "agg" and st[2][1][0] == "tuple":
+                for i, op in enumerate(st[2][2]):
+                    if op[0] in ("c", "m") and op[1][0] == d and not op[1][1]:
+                        k = i
+    if k is None:
+        raise AnchorLost("work_on_cc: the refresh_channel.recv() future is not one of the select! branches")
+    # `disabled |= 1 << k` under the branch's precondition
+    guarded = False
+    for bb in sorted(b.live_blocks):
+        for st in b.stmts(bb):
+            if st[0] == "A" and st[2][0] == "bin" and st[2][1] in ("Shl", "ShlUnchecked") and st[2][2][0] == "k" and str(st[2][2][3]) == "1" and st[2][3][0] == "k" and str(st[2][3][3]) == str(k) \
+                    and b.local_ty(st[1][0]) in ("u8", "u16", "u32", "u64"):
+                sts = dj.states_at(bb)
+                # guarded by a boolean that is not a constant: some multiply-assigned bool local is known true here
+                if sts and all(any(kk[0] == "val" and not kk[1][1] and b.local_ty(kk[1][0]) == "bool" and in_set(v, {1}) and len(b.defs.get(kk[1][0], [])) > 1 for kk, v in stt.items()) for stt in sts):
+                    guarded = True
+    r.instance("refresh-request-branch-is-guarded", guarded,
+               "the select! branch that receives refresh requests (branch %d) has no precondition that can disable it: a request is then accepted while a full fetch is in flight and "
+               "set_pending_request() overwrites the one pending-request slot - the earlier requester's reply channel is dropped and its refresh_metadata() never answered" % k, recvs[0].span)
+
+
+def _places19(rv):
+    from ..util import _rv_places
+    return _rv_places(rv)
+
+
 def check(ctx):
     facts = inline_view(ctx.facts("default"))
-    for fn in (r1_r4, r2, r3, r5, r6, r7, r8, r9, r10):
+    for fn in (r1_r4, r2, r3, r5, r6, r7, r8, r9, r10, r11):
         try:
             fn(ctx, facts)
         except AnchorLost as ex:
